@@ -199,8 +199,8 @@ impl Interpreter {
                 let first = state.stack.last().cloned().ok_or(InterpreterError::NumberOutOfRange)?;
                 let second = state.stack.get(state.stack.len() - 2).cloned().ok_or(InterpreterError::NumberOutOfRange)?;
 
-                state.stack.push_bytes(first);
                 state.stack.push_bytes(second);
+                state.stack.push_bytes(first);
             }
             OpCodes::OP_3DUP => {
                 if state.stack.len() < 3 {
@@ -210,9 +210,9 @@ impl Interpreter {
                 let second = state.stack.get(state.stack.len() - 2).cloned().ok_or(InterpreterError::NumberOutOfRange)?;
                 let third = state.stack.get(state.stack.len() - 3).cloned().ok_or(InterpreterError::NumberOutOfRange)?;
 
-                state.stack.push_bytes(first);
-                state.stack.push_bytes(second);
                 state.stack.push_bytes(third);
+                state.stack.push_bytes(second);
+                state.stack.push_bytes(first);
             }
             OpCodes::OP_2OVER => {
                 if state.stack.len() < 4 {
@@ -236,10 +236,10 @@ impl Interpreter {
             }
 
             OpCodes::OP_2SWAP => {
-                let x1 = state.stack.pop_bytes()?;
-                let x2 = state.stack.pop_bytes()?;
-                let x3 = state.stack.pop_bytes()?;
                 let x4 = state.stack.pop_bytes()?;
+                let x3 = state.stack.pop_bytes()?;
+                let x2 = state.stack.pop_bytes()?;
+                let x1 = state.stack.pop_bytes()?;
 
                 state.stack.push_bytes(x3);
                 state.stack.push_bytes(x4);
